@@ -38,6 +38,9 @@ SIGMA_EXT = [
     "www.a.b",
     "http://a.b c",
     "a@b.c",
+    "xmpp:a@b.c",
+    "mailto:a@b.c",
+    "(xmpp:a@b.c/d)",
     "<http://a>",
     "<script>",
     "<title>x</title>",
